@@ -137,7 +137,7 @@ func main() {
 		Rule: "stress/order/firstuse: seeded workloads of 2…24 holders on one mutex.NewSharedMutex() (pool of 1…6 names from five name pools, any read/write mix, map size 0…pool, holds = none/yields/µs sleeps); every section is checked online against a shadow readers/writer table and offline by replaying the recorded [Lock returned, Unlock called] intervals per resource; completion or a logical-deadlock diagnosis from stop-the-world goroutine snapshots. " +
 			"pairs: ALL ordered pairs of lock maps over three names (27×27, two name pools): A gated inside, B must enter iff the maps do not conflict (decided from B's scheduler state, not from time); triples: compatible bystander while a conflicting request is waiting. " +
 			"pipe: goatapp mockup application + pipelinem; tasks submitted with pip:run --rlock/--wlock and probe bodies; the probe log is checked with the same interval oracle. " +
-			"distinct = distinct workloads (pool + all holders' map sequences); nested pairs: two scopes with a lock namespace of their own (same or different), tasks submitted directly in the scope or from the body of a lock-free task, local and global resource names – a local name is the same resource exactly within one lock namespace, wherever in the scope the task was submitted from; non-trivial = at least two sections overlapped in time or one request waited for a conflicting holder",
+			"distinct = distinct workloads (pool + all holders' map sequences); killed holder: A gated inside its body in a context of its own that is then ended from outside – B with the same resource queues until the body is over and then gets its turn; nested pairs: two scopes with a lock namespace of their own (same or different), tasks submitted directly in the scope or from the body of a lock-free task, local and global resource names – a local name is the same resource exactly within one lock namespace, wherever in the scope the task was submitted from; non-trivial = at least two sections overlapped in time or one request waited for a conflicting holder",
 		Assumptions: []string{
 			"'never deadlocks' is restated as: every workload completes, or a stop-the-world goroutine snapshot shows every unfinished holder parked inside the mutex package while nobody is inside a section (violation); a watchdog expiry without that diagnosis is inconclusive",
 			"'not serialised' is decided for scripted pairs/triples only (B must be observed inside its section while A is gated inside); for random workloads overlaps are counted as observations, their absence is not a violation",
